@@ -6,9 +6,9 @@ CONSTANTS
   Sizes <- DumpSizesQ
   Limits <- Lim0
   Fills <- DumpFills
-  Alphabet <- DumpAlphabet
-  Resizes <- NoResize
-  MaxDepth = 3
-  Emit = TRUE
+  Alphabet <- DumpKnownAlphabet
+  Resizes <- DumpKnownResizes
+  MaxDepth = 6
+  Emit = FALSE
   CheckDump = TRUE
-  ExcuseKnown = TRUE
+  ExcuseKnown = FALSE
